@@ -376,7 +376,14 @@ impl<'de, R: Reader<'de>> Deserializer<R> {
             let n = if cfg.utf8_lossy && self.parser.read.next_invalid_utf8() != usize::MAX {
                 // repr the invalid utf8, not need to care about the invalid UTF8 char in non-string
                 // parts, it will cause errors when parsing.
-                val.parse_with_padding(String::from_utf8_lossy(json).as_bytes(), cfg)?
+                let repaired = String::from_utf8_lossy(json);
+                let n = val.parse_with_padding(repaired.as_bytes(), cfg)?;
+                if n > repaired.len() {
+                    // the parser only stopped inside the padding: the document is truncated
+                    self.parser.read.set_index(json.len());
+                    return Err(Error::syntax(EofWhileParsing, json, json.len()));
+                }
+                n
             } else {
                 let n = val.parse_with_padding(json, cfg)?;
                 if n > json.len() {
